@@ -22,7 +22,7 @@ use std::{
 const LIMBS: usize = 8;
 const NADDR: usize = 6;
 
-fn peer_from_seed(seed: u64) -> PeerId {
+pub(crate) fn peer_from_seed(seed: u64) -> PeerId {
     let mut b = vec![0x00u8, 32];
     let mut d = [0x5au8; 32];
     d[..8].copy_from_slice(&seed.to_be_bytes());
@@ -205,7 +205,13 @@ fn run_case(c: &mut Vec<u64>) -> Option<Vec<u64>> {
                     code = match table.entry(key.clone()) {
                         KBucketEntry::Occupied(n) => {
                             n.push_addresses(ad);
-                            n.verif_set_connection(cn);
+                            // the rule of add_known_peer (fix F-C14b): NotConnected does not
+                            // overwrite Connected
+                            if !(n.verif_connection() == ConnectionType::Connected
+                                && cn == ConnectionType::NotConnected)
+                            {
+                                n.verif_set_connection(cn);
+                            }
                             1
                         }
                         KBucketEntry::Vacant(n) => {
@@ -488,6 +494,15 @@ fn gen_case(rng: &mut Rng, small: bool, thorough: bool) -> Vec<u64> {
 }
 
 fn run_emit(out: &mut Outputs, mut c: Vec<u64>) {
+    if c.first() == Some(&0) {
+        // glue case (second stream): the observed operations are written back into the case
+        match catch_unwind(AssertUnwindSafe(|| crate::c14_glue::run_stored(&c))) {
+            Ok(Some((case, trace))) => out.emit(&case, &trace),
+            Ok(None) => out.emit(&c, &[0]),
+            Err(_) => out.emit(&c, &[PANIC_MARK]),
+        }
+        return;
+    }
     let t = catch_unwind(AssertUnwindSafe(|| run_case(&mut c)))
         .unwrap_or(Some(vec![PANIC_MARK]))
         .unwrap_or(vec![0]);
@@ -515,6 +530,15 @@ pub fn main(args: &Args) {
     }
     for n in 0..ncases {
         let mut r = rng.fork();
+        if n % 3 == 2 {
+            // second stream: the Kademlia event loop around the table
+            match catch_unwind(AssertUnwindSafe(|| crate::c14_glue::generate(&mut r, n < 40, thorough))) {
+                Ok(Some((case, trace))) => out.emit(&case, &trace),
+                Ok(None) => out.emit(&[0, 0], &[0]),
+                Err(_) => out.emit(&[0, 0], &[PANIC_MARK]),
+            }
+            continue;
+        }
         let c = match n {
             // every 6-bit pattern of the low / high distance bits, as peers and as targets
             40 => gen_pattern_case(&mut r, [0u8; 32], 0, 1),
